@@ -349,9 +349,12 @@ func evalClassDeclareStmt(vm *r.VM, node *syntax.ClassDeclareStmt) error {
 		return err
 	}
 
-	// then add symbol to export value
-	if err := module.AddExportValue(className.GetLiteral(), classRef); err != nil {
-		return err
+	// then add symbol to export value (no module is current inside the body of a
+	// constructor given to a predefined type - as for 如何XX？ below)
+	if module != nil {
+		if err := module.AddExportValue(className.GetLiteral(), classRef); err != nil {
+			return err
+		}
 	}
 	return nil
 }
